@@ -23,6 +23,9 @@ SHAPES = {
     "weekend": lambda n: [BASE + pd.Timedelta(days=d) for d in (0, 1, 4, 7, 8)[:n]],
     "intraday": lambda n: [BASE + pd.Timedelta(hours=h) for h in (0, 3, 24, 27, 48)[:n]],
     "month": lambda n: [BASE + pd.Timedelta(days=d) for d in (0, 31, 59, 90, 120)[:n]],
+    # timezone-aware intraday stamps whose UTC date differs from their local date (08:00 in Tokyo is 23:00 UTC of the day before):
+    # the level of a day is the last observation of the LOCAL day
+    "tokyo": lambda n: [pd.Timestamp("2020-01-06 08:00", tz="Asia/Tokyo") + pd.Timedelta(hours=h) for h in (0, 7, 24, 31, 48)[:n]],
     "mixed": lambda n: [BASE + pd.Timedelta(hours=h) for h in (0, 24 * 3, 24 * 3 + 2, 24 * 40, 24 * 40 + 5)[:n]],
 }
 METRICS = ["cagr", "volatility", "max_drawdown", "value_at_risk", "expected_shortfall", "downside_volatility",
@@ -389,9 +392,9 @@ def run(tier, **kw):
     for L in range(2, maxlen + 1):
         for vals in itertools.product(ALPHA, repeat=L):
             for shape in SHAPES:
-                if tier == "quick" and L == 4 and shape not in ("daily", "intraday"):
+                if tier == "quick" and L == 4 and shape not in ("daily", "intraday", "tokyo"):
                     continue
-                if L == 5 and shape not in ("daily", "intraday", "month"):
+                if L == 5 and shape not in ("daily", "intraday", "month", "tokyo"):
                     continue
                 cases.append(("metrics", vals, shape))
     for L in range(2, (3 if tier == "quick" else 4) + 1):
@@ -413,8 +416,8 @@ def run(tier, **kw):
     rep.set("distinct_nontrivial", len(nt))
     rep.set("max_length", maxlen)
     rep.set("exhaustive", True)
-    rep.set("rule", "metrics: ALL level series of length 2..%d over the value alphabet {1,2,4,3,1.5,0.75} x 5 index shapes (consecutive days, weekend gap, "
-                    "intraday stamps collapsing to daily levels, month gaps, mixed) spanning >= 1 calendar day: 12 scalar metrics (with and without a scalar "
+    rep.set("rule", "metrics: ALL level series of length 2..%d over the value alphabet {1,2,4,3,1.5,0.75} x 6 index shapes (consecutive days, weekend gap, "
+                    "intraday stamps collapsing to daily levels, the same with a timezone-aware index whose UTC dates differ from the local ones, month gaps, mixed) spanning >= 1 calendar day: 12 scalar metrics (with and without a scalar "
                     "risk-free rate), VaR and expected shortfall also at quantile levels 0.25/0.5/0.75/1, 3 series-valued metrics, a 2-column DataFrame, a risk-free level series, tracking error against a benchmark, and 5 "
                     "scalings; corruptions: every single-defect variant (NaN / 0 / negative at each position, duplicated stamp, swapped adjacent stamps, "
                     "integer / string / NaT index) of every series over 4 values up to length 4 x every metric; tearsheet rows of a TrackRecord fed with the path; "
